@@ -133,6 +133,35 @@ def suite_call(ctx, case):
                 x, y = out[T[i], T[j]], out[T[j], T[i]]
                 sym = sym and ((x is None) == (y is None)) and (x is None or bool(np.allclose(x, y, rtol=1e-9, atol=0, equal_nan=True)))
     ctx.pred('call', case, sym, '%s result is not symmetric in the two type labels' % call, key='C05:symmetric')
+    # second evaluation on the SAME object after (i) the caller modified the value it got back and (ii) the stored correlations were
+    # edited in place (hand-populating the object pair by pair): the definition applies to the arrays as they are now
+    if case.get('again') and n >= 1:
+        try:
+            with np.errstate(all='ignore'):
+                if isinstance(out, MatrixArray): out.data += 1.5
+                else:
+                    for i in range(n):
+                        v = out[T[i], T[i]]
+                        if isinstance(v, np.ndarray): v += 1.5
+                d = p.sys.domain
+                if case['again'] == 'pair':
+                    a, b = T[0], T[n - 1]
+                    p.totalCorr[a, b] = p.totalCorr[a, b] * 0.5 + 0.01; p.directCorr[a, b] = p.directCorr[a, b] * 1.25
+                else:
+                    p.totalCorr.data *= 0.7; p.directCorr.data *= 1.1
+                p1 = copy.deepcopy(p)
+                out2 = C06.do_op(p, call)
+            ref2 = reference(p1, call)
+            a2 = C06.vals(out2, n)
+            if call in ('pmf', 'solvP'):
+                with np.errstate(all='ignore'):
+                    good = (np.exp(-ref2[0] / p.sys.kT) > 1e-6) & np.isfinite(ref2[0]) & np.isfinite(a2[0])
+                a2 = [a2[0][good]]; ref2 = [ref2[0][good]]
+            ok2, why2 = C06.same_vals(a2, ref2, 1e-7)
+        except Exception as e:
+            ok2 = False; why2 = 'raised %s: %s' % (type(e).__name__, str(e)[:80])
+        ctx.pred('call', case, ok2, '%s (rank %d), second call after the stored correlations were edited in place and the first result was modified by the caller, differs from its definition: %s' % (call, n, why2),
+                 key='C05:def:' + call.rstrip('01HP'))
 
 def suite_selfconsistent(ctx, case):
     """on solved objects: unnormalised S(k) = (I - Omega C)^-1 Omega"""
@@ -161,6 +190,10 @@ def gen_hand_sys(rng, n, L):
           'diam': diam, 'pairs': {}}
     for (i, j) in G.pairs_of(n):
         sd['pairs']['%d%d' % (i, j)] = {'pot': ['hs', None, 1e6], 'clo': ['py', True], 'om': ['single', 1] if i == j else ['nointra', 0]}
+    if n >= 2 and rng.random() < 0.35:
+        for t in range(rng.randint(2, n)): sd['dens'][t] = sd['dens'][0]
+        sd['dens_group'] = True                                  # several densities assigned in one statement (density[['A','B']] = rho)
+    if rng.random() < 0.3: sd['kT_assign'] = 1.0
     return sd
 
 def generate(ctx):
@@ -171,8 +204,8 @@ def generate(ctx):
         obj = ['hand', rng.randrange(10 ** 6)]
         spaces = ''.join(rng.choice('RF') for _ in range(3))
         for call in CALLS:
-            case = {'sys': sd, 'obj': obj, 'call': call, 'spaces': spaces}
-            ctx.case('call', case, n >= 2, tags=['rank:%d' % n, 'call:' + call, 'spaces:' + spaces, 'equal-diam' if len(set(sd['diam'])) == 1 else 'unequal-diam'])
+            case = {'sys': sd, 'obj': obj, 'call': call, 'spaces': spaces, 'again': rng.choice([None, 'pair', 'scale'])}
+            ctx.case('call', case, n >= 2, tags=['again:%s' % case['again'], 'rank:%d' % n, 'call:' + call, 'spaces:' + spaces, 'equal-diam' if len(set(sd['diam'])) == 1 else 'unequal-diam'])
             suite_call(ctx, case)
     for q in range(ctx.n(6, 40)):
         sd = C01.gen_solvable(rng, maxn=3, maxL=ctx.n(32, 64))
